@@ -161,6 +161,8 @@ def gen_cases(chk):
         if j % 2 == 0:
             combos.append((rng.randint(6, 12), p, False, 'rawgentle'))
             combos.append((12, p, False, 'rawtinyjit'))
+    for j, p in enumerate([3, 3, 3, 1, 2, 3, 4, 5, 3, 3]):      # integer knot arrays; degree 3 uniform is the uniform-cubic path
+        combos.append((rng.randint(max(2, p + 1), 12) if j else 1, p, j % 2 == 1 and j > 0, 'rawintuniform' if j % 4 != 3 else 'rawint'))
     cases = []
     for (nc, p, periodic, kind) in combos:
         spd = make_space(rng, nc, p, periodic, kind)
